@@ -26,7 +26,7 @@ BUDGET_S = {'quick': 40, 'thorough': 540}
 FLOORS = {'quick': {'pairs': 1900, 'pixels_judged': 10000000, 'single_layer_requests': 900, 'combined_requests_observed': 270,
                     'pruned_requests_observed': 160, 'opacity_layers': 800, 'colorkey_layers': 450, 'clip_layers': 270,
                     'group_requests': 320, 'cache_layers': 400, 'alpha_judged': 750, 'res_hidden_layers': 700,
-                    'fmt_png8': 240, 'fmt_jpeg': 240, 'fmt_tiff': 270},
+                    'fmt_png8': 240, 'fmt_jpeg': 240, 'fmt_tiff': 270, 'concurrent_rounds': 80, 'concurrent_responses_compared': 6000},
           'thorough': {'pairs': 11000, 'pixels_judged': 65000000, 'single_layer_requests': 5600,
                        'combined_requests_observed': 1900, 'pruned_requests_observed': 780, 'opacity_layers': 4000,
                        'colorkey_layers': 3200, 'clip_layers': 2000, 'group_requests': 2000, 'cache_layers': 2900,
@@ -935,12 +935,80 @@ def run_case(run, case):
             # every generated configuration is valid by the documentation: a rejection is a harness problem
             raise RuntimeError('generated configuration rejected by the loader: %s: %s' % (type(ex).__name__, ex))
         run.hit('configs')
+        done = []
         for req in reqs:
             if run.out_of_time() and not run.replaying:
                 break
             one_request(run, case, spec, scp, sct, req, d)
+            done.append(req)
+        if done and (case['i'] % 2 == 0 or run.replaying):
+            concurrent_phase(run, case, spec, scp, done)
     finally:
         shutil.rmtree(d, ignore_errors=True)
+
+
+def concurrent_phase(run, case, spec, scp, reqs):
+    """the picture a client gets must not depend on what other clients ask at the same moment: every request of the case is
+    answered once more alone (reference bytes; caches are warm by now) and then from four real threads at once
+    (interpreter switch interval 1 microsecond); every concurrent answer must be byte-identical to the reference"""
+    import threading
+    paths = [getmap_path(r, False) for r in reqs]
+
+    def get(pth):
+        r = scp.get(pth)
+        return r.code, r.content_type, r.body
+    try:
+        ref = [get(p_) for p_ in paths]
+        again = [get(p_) for p_ in paths]
+    except Exception as ex:
+        run.dc('concurrent_phase_reference_failed:' + type(ex).__name__)
+        return
+    stable = [i for i in range(len(paths)) if ref[i] == again[i] and ref[i][0] == 200]
+    if len(stable) < len(paths):
+        run.count('responses_not_repeatable_when_alone', len(paths) - len(stable))
+    if not stable:
+        return
+    diffs = []
+    lock = threading.Lock()
+    nthreads = 4
+    start = threading.Barrier(nthreads)
+
+    def client(k):
+        order = (stable[k:] + stable[:k]) * 2
+        try:
+            start.wait(20)
+            for i in order:
+                got = get(paths[i])
+                if got != ref[i]:
+                    with lock:
+                        diffs.append((i, got))
+        except Exception as ex:
+            with lock:
+                diffs.append((-1, (0, '', repr(ex).encode())))
+    old_switch = sys.getswitchinterval()
+    sys.setswitchinterval(1e-6)
+    try:
+        ths = [threading.Thread(target=client, args=(k,)) for k in range(nthreads)]
+        for t in ths:
+            t.start()
+        for t in ths:
+            t.join(180)
+    finally:
+        sys.setswitchinterval(old_switch)
+        upstream.UP.reset_log()
+    run.hit('concurrent_rounds')
+    run.hit('concurrent_responses_compared', len(stable) * 2 * nthreads)
+    if diffs:
+        i, got = diffs[0]
+        detail = 'exception %r' % (got[2][:300],) if i < 0 else (
+            '%s: alone %s %s %d bytes, concurrently %s %s %d bytes%s' % (
+                paths[i], ref[i][0], ref[i][1], len(ref[i][2]), got[0], got[1], len(got[2]),
+                (' body ' + got[2][:200].decode('utf-8', 'replace')) if got[0] != 200 else ''))
+        run.violation({'clause': 'answer_differs_under_concurrency', 'status_changed': bool(i >= 0 and got[0] != ref[i][0]),
+                       'n_layers': len(reqs[i]['layers']) if i >= 0 else 0},
+                      {'i': case['i'], 'spec': spec, 'requests': reqs},
+                      '%d of %d concurrently issued requests were answered differently from the same request issued alone; first: %s' % (
+                          len(diffs), len(stable) * 2 * nthreads, detail))
 
 
 def one_request(run, case, spec, scp, sct, req, d):
